@@ -1,0 +1,16 @@
+//go:build verif
+
+package hybridbuffer
+
+import "github.com/relex/slog-agent/base"
+
+// VerifC19Peek returns the current lengths of the persistent queue (inputChannel) and of the in-memory queue
+// (outputChannel) of a bufferer created by this package. Read-only; only compiled with the "verif" build tag.
+// The metrics harness uses it to wait until the output feeder has settled between two scripted operations.
+func VerifC19Peek(b base.ChunkBufferer) (queueLen int, windowLen int, ok bool) {
+	buf, isBufferer := b.(*bufferer)
+	if !isBufferer {
+		return 0, 0, false
+	}
+	return len(buf.inputChannel), buf.feeder.NumOutput(), true
+}
